@@ -21,12 +21,17 @@ package crypto
 //@   loops 0
 //@   modifies nothing
 //@   ensures [C19] @sixtyFourBytes implies(result1 == nil, len(result0) == 64)
+// the curve's verdict (Go's crypto/ecdsa, assumed correct) is the verdict of Verify: nil exactly when it accepted
+//@ ghost gCurveSaysYes Bool
+//@ extern crypto/ecdsa.Verify
+//@   ghost gCurveSaysYes = result
 //@ func (ECDSAPub).Verify
+//@   ensures [C19] @verdictIsTheCurves (result == nil) == gCurveSaysYes
 //@   recvname e
 //@   params msg, sig
 //@   at call ecdsa.Verify: assert [C19] @checksDigestOfMessage sametable(arg1, sha256of(msg))
 //@   loops 0
-//@   modifies nothing
+//@   modifies gCurveSaysYes
 //@   requires len(sig) >= 64
 //@ func Hash160
 //@   params data
